@@ -306,7 +306,7 @@ class Explorer:
             if node is g.raise_exit:
                 detail = None
                 for p in reversed(path):
-                    if p.raised is not None or (p.kind == "stmt" and isinstance(p.ast, ast.Raise)):
+                    if p.always_raises:
                         detail = p.raised or ast.unparse(p.ast)
                         break
                 outcomes.append(Outcome("raise", detail, env, events, path))
@@ -351,11 +351,13 @@ class Explorer:
                             stack.append((b, env2, events, path, None))
                     continue
             env2 = self.apply(node, env)
-            explicit_raise = node.kind == "stmt" and (isinstance(node.ast, ast.Raise) or node.raised is not None)
+            explicit_raise = node.always_raises
             for b, l in node.out:
                 if only_label is not None and l != only_label:
                     continue
                 if l == "exc" and not (explicit_raise or self.follow_implicit_exc):
+                    continue
+                if explicit_raise and l != "exc":
                     continue
                 stack.append((b, env2, events, path, None))
         return outcomes
